@@ -8,10 +8,14 @@ Local Open Scope Z_scope.
 
 (* ---- the reader: remaining bytes + a schedule of read sizes ---- *)
 Inductive rerr := REOF | RFail.
+(* what a failing step does: keep failing without data (FSticky); fail once without data, then go on (FOnce); deliver its bytes
+   TOGETHER with the error and then go on - e.g. to a clean EOF (FOnceData).  io.Reader allows all three. *)
+Inductive fmode := FSticky | FOnce | FOnceData.
 Record reader := {
   r_rest : list Z;                 (* bytes not yet delivered *)
   r_sched : list (nat * bool);     (* (requested chunk size (0 = zero-length read), fail now?) ; once exhausted: read as much as fits *)
   r_eof_with_data : bool;          (* does the last chunk arrive together with io.EOF? *)
+  r_fail_mode : fmode;
 }.
 
 (* one call of src.Read(p) with len(p) = cap: (bytes, error, reader afterwards) *)
@@ -20,8 +24,14 @@ Definition read (r : reader) (cap : nat) : list Z * option rerr * reader :=
                             | [] => (cap, false, [])
                             | (n, f) :: s => (n, f, s)
                             end in
-  let r' (rest : list Z) := {| r_rest := rest; r_sched := sched'; r_eof_with_data := r_eof_with_data r |} in
-  if fail then ([], Some RFail, r)                 (* the failure persists *)
+  let r' (rest : list Z) := {| r_rest := rest; r_sched := sched'; r_eof_with_data := r_eof_with_data r; r_fail_mode := r_fail_mode r |} in
+  if fail then
+    match r_fail_mode r with
+    | FSticky => ([], Some RFail, r)                 (* the failure persists *)
+    | FOnce => ([], Some RFail, r' (r_rest r))
+    | FOnceData => let k := Nat.min (Nat.min n cap) (length (r_rest r)) in
+                   (firstn k (r_rest r), Some RFail, r' (skipn k (r_rest r)))
+    end
   else
     match r_rest r with
     | [] => ([], Some REOF, r' [])
